@@ -205,6 +205,19 @@ pub fn run_transition(
     expect_pre_key: Option<&[u8]>,
     st: &mut Stats,
 ) -> TransOut {
+    run_transition_h(ctx, cfg, hist, op, expect_pre_key, None, st)
+}
+
+/// `ref_pre`: the reference's own state after `hist` (history-level rules).
+pub fn run_transition_h(
+    ctx: &Ctx,
+    cfg: &Config,
+    hist: &[Op],
+    op: Op,
+    expect_pre_key: Option<&[u8]>,
+    ref_pre: Option<&(Vec<refmodel::RE>, usize)>,
+    st: &mut Stats,
+) -> TransOut {
     let u = ctx.u;
     let e = u.e;
     reg_reset();
@@ -386,6 +399,53 @@ pub fn run_transition(
                 "C03.oldest-first",
                 format!("evicted keys {:?} were not dropped oldest first", r.evicted.iter().map(|x| x.id).collect::<Vec<_>>()),
             ));
+        }
+    }
+    // history-level: the victims must also be the least recently used by the
+    // order of last access accumulated over the WHOLE history (the reference's
+    // own state), not only by the order the cache reported before this step.
+    // Evaluated when both agree on what is held.
+    if let Some((rl, rlimit)) = ref_pre {
+        let mut a: Vec<u32> = rl.iter().map(|x| x.id).collect();
+        let mut b: Vec<u32> = pr.ids();
+        a.sort();
+        b.sort();
+        let same_sizes = rl.iter().all(|x| pr.entries.iter().any(|y| y.id == x.id && y.kheap == x.kheap && y.vheap == x.vheap));
+        if a == b && *rlimit == pr.limit && same_sizes && !matches!(op, Op::CloneSwap) {
+            st.rule("C03.history");
+            let robs = Obs {
+                limit: *rlimit,
+                cap: pr.cap,
+                len: rl.len(),
+                cur: rl.iter().map(|x| x.size(e)).sum(),
+                is_empty: rl.is_empty(),
+                entries: rl
+                    .iter()
+                    .map(|x| {
+                        let y = pr.entries.iter().find(|y| y.id == x.id).unwrap();
+                        EObs { id: x.id, kheap: x.kheap, kserial: y.kserial, vheap: x.vheap, vserial: y.vserial, kaddr: 0, vaddr: 0 }
+                    })
+                    .collect(),
+                overrun: false,
+            };
+            let rg = refmodel::step(u, &robs, op, &Incoming { kserial: side.in_k, vserial: side.in_v });
+            let mut want: Vec<u32> = rg.evicted.iter().map(|x| x.id).collect();
+            let mut got: Vec<u32> = ids_of(pr, &unasked);
+            want.sort();
+            got.sort();
+            if want != got {
+                viol.push(v(
+                    p(3),
+                    "C03.history",
+                    format!(
+                        "evicted keys {:?}; by the order of last access over the whole history ({:?}, LRU first) the least recently used to go are {:?} (the cache reported the order {:?} before this step)",
+                        got,
+                        rl.iter().map(|x| x.id).collect::<Vec<_>>(),
+                        want,
+                        pr.ids()
+                    ),
+                ));
+            }
         }
     }
     if let Some(id) = r.promoted {
